@@ -3,6 +3,7 @@ import PyPhysim.Proofs.C05Grid
 import PyPhysim.Proofs.C05Params
 import PyPhysim.Proofs.C05Result
 import PyPhysim.Proofs.C05Exact
+import PyPhysim.Proofs.C05Gen
 
 /-!
 # C05 — the Monte Carlo runner runs exactly the requested repetitions per variation
@@ -686,6 +687,96 @@ example :
   have hs : sortParams (relabel f [("a", [3, 4, 5])]) = relabel f [("a", [3, 4, 5])] := by
     simp [relabel, sortParams]
   simp only [packIndexes, combos, hs]
+  decide
+
+/-! ## Second tie: the control skeleton regenerated from the source
+
+`Generated/C05Loop.lean` is re-emitted on every run from the AST of
+`SimulationRunner._simulate_for_current_params_common` (harness/gen/c05.py: symbolic
+execution, private helpers inlined, `while True` + `break` accepted): an automaton whose
+states are the points at which the method waits for a repetition.  The theorems below are
+re-checked against that file, so an edit of the source that changes a test, an update,
+their order or the shape of the loop breaks one of them. -/
+
+open PyPhysim.Generated.C05Loop in
+/-- **The regenerated loop is the model.**  For every results type, merge, `rep_max`,
+    `_keep_going`, loaded start and outcome stream: running the automaton regenerated from
+    the source (entry: partial results loaded or first repetition, retried until it is not
+    skipped; guard `keep ∧ rep < rep_max` before every further repetition; `ok` merges and
+    counts, `skip` only moves `num_skipped_reps`; return) gives exactly the hand model's
+    `runVariation` — same final state, same number of calls, same rest of the stream, same
+    `exhausted` / `starved` outcome.  All theorems above therefore hold of the regenerated
+    machine. -/
+theorem generated_loop_matches_model (merge : R → R → R) (repMax : Nat) (keep : Keep R)
+    (start : Option (R × Nat)) (outs : List (Outcome R)) :
+    genResult (run merge repMax keep (entry repMax keep start) 0 outs)
+      = runVariation merge repMax keep start outs :=
+  gen_run_variation merge repMax keep start outs
+
+open PyPhysim.Generated.C05Loop in
+/-- **Final save = what is returned.**  Whenever the regenerated machine returns, the
+    final `save_partial_results` call received exactly the returned `current_rep`, results
+    and `num_skipped_reps` value (this is what `Runner.save` of the model stores). -/
+theorem generated_final_save_is_returned (merge : R → R → R) (repMax : Nat) (keep : Keep R)
+    (start : Option (R × Nat)) (outs : List (Outcome R)) (rep : Nat) (acc : R) (skipped : Nat)
+    (saved : Saved R)
+    (h : (run merge repMax keep (entry repMax keep start) 0 outs).1 = .ret rep acc skipped saved) :
+    saved = ⟨acc, skipped, rep⟩ := by
+  have := savedIsReturned_run merge repMax keep outs _ 0 (savedIsReturned_entry repMax keep start)
+  rw [h] at this
+  exact this
+
+/-- **Order of the two stop tests in the source**: on every path that goes on to another
+    repetition `_keep_going` is consulted first, then `current_rep < rep_max` (with a pure
+    `keep` the two orders are indistinguishable for `generated_loop_matches_model`; the order
+    matters for a `_keep_going` with side effects, so it is pinned here). -/
+theorem generated_guard_order :
+    PyPhysim.Generated.C05Loop.guardTests = [["keep", "limit"]] := by decide
+
+/-- **Periodic save**: `save_partial_results_maybe` is called exactly once per iteration of
+    the `while` loop (program point 1), after a merged AND after a skipped repetition, and not
+    in the retry loop of the first repetition (program point 0). -/
+theorem generated_periodic_save_once_per_iteration :
+    PyPhysim.Generated.C05Loop.periodicSaveCalls
+      = [(0, "ok", 0), (0, "skip", 0), (1, "ok", 1), (1, "skip", 1)] := by decide
+
+open PyPhysim.Generated.C05Loop in
+/-- the regenerated machine on a stream with a skipped first repetition, a stop rule that
+    fires before the limit and a left-over outcome (same stream as the `runVariation` example
+    below) -/
+example :
+    (match run (· + ·) 10 (fun acc _ _ => decide (acc < 5)) (entry 10 (fun acc _ _ => decide (acc < 5)) none) 0
+        [.skip, .ok 2, .skip, .ok 2, .ok 3, .ok 9] with
+     | (.ret rep acc skipped saved, n, rest) => (rep, acc, skipped, saved.rep, n, rest.length)
+     | _ => (0, 0, 0, 0, 0, 0)) = (3, 7, 2, 3, 5, 1) := by decide
+
+
+open PyPhysim.Generated.C05Grid in
+/-- **The regenerated index computations are the model's.**  `Generated/C05Grid.lean` is
+    re-emitted from the AST of `SimulationParameters.get_unpacked_params_list` and
+    `get_num_unpacked_variations` (loops summarised as maps).  For every set of unpacked
+    parameters: the list of combinations is `combos` (product over the name-SORTED
+    parameters, last name fastest — so `unpack_order` holds of it),
+    element `i` pairs the sorted names with combination `i` and carries `_unpack_index = i`,
+    and the number of variations — a product of the lengths taken in the iteration order of a
+    Python set, i.e. in ANY order `lens` — is the model's `prod (dimsOf ps)`. -/
+theorem generated_grid_matches_model {V : Type} (ps : List (Param V)) :
+    unpackedValues ps = combos ps ∧
+    (∀ i, variation ps i = ((combos ps)[i]?).map (fun c => (((sortParams ps).map (·.1)).zip c, i))) ∧
+    (∀ lens : List Nat, lens.Perm (dimsOf ps) → numVariations lens = prod (dimsOf ps)) :=
+  ⟨gen_unpackedValues ps, gen_variation ps,
+   fun lens h => (gen_numVariations lens).trans (prod_perm h)⟩
+
+open PyPhysim.Generated.C05Grid in
+/-- three unsorted names: element 3 of the regenerated list -/
+example :
+    variation [("b", [1, 2]), ("a", [5, 6, 7]), ("B", [9])] 3
+      = some ([("B", 9), ("a", 6), ("b", 2)], 3) ∧ numVariations [2, 3, 1] = 6 := by
+  have hs : sortParams [("b", [1, 2]), ("a", [5, 6, 7]), ("B", [9])]
+      = [("B", [9]), ("a", [5, 6, 7]), ("b", [1, 2])] := by
+    simp [sortParams, List.mergeSort, List.MergeSort.Internal.splitInTwo]
+  refine ⟨?_, by decide⟩
+  simp only [variation, unpackedValues, unpackedNames, hs]
   decide
 
 /-- a variation with a skip in the first repetition, a stop rule that fires before
